@@ -9,6 +9,7 @@ import (
 	"fmt"
 	"os"
 	"path/filepath"
+	"runtime/pprof"
 	"sort"
 	"strings"
 	"time"
@@ -148,6 +149,12 @@ var (
 func WorkerMain(engines map[string]func() Engine) {
 	if !flag.Parsed() {
 		flag.Parse()
+	}
+	if pf := os.Getenv("VERIF_PROF"); pf != "" { // developer aid
+		if f, err := os.Create(pf); err == nil {
+			pprof.StartCPUProfile(f)
+			defer pprof.StopCPUProfile()
+		}
 	}
 
 	mk, ok := engines[*prop]
